@@ -518,3 +518,27 @@ Example x86_requests_nonvacuous :
   | None => False
   end.
 Proof. vm_compute. split; [reflexivity|]. split; [tauto|]. intuition discriminate. Qed.
+
+(* ---------- a FAILED insertion (put-back path) is the identity (Topo/DiscFailProofs.v) ---------- *)
+From HV Require Import Topo.DiscFailProofs.
+
+(* on an ordered tree whose objects are distinct, at any depth: when hwloc___insert_object_by_cpuset gives up on an
+   intersection without inclusion, every child OBJ had adopted is back at its old place, whatever lay between
+   them, and nothing else moved: the tree is exactly what it was *)
+Theorem failed_insertion_leaves_the_tree_unchanged : forall dms dm_new od, wfk od -> forall cur,
+  tree_ord cur -> defect_free dms dm_new od cur -> distinct_children cur ->
+  forall o cur', odata o = od -> insert_by_cpuset dms dm_new cur o = (cur', OFail) -> cur' = cur.
+Proof. exact failed_insertion_is_identity. Qed.
+Print Assumptions failed_insertion_leaves_the_tree_unchanged.
+
+(* the scan that gives the adopted children back rebuilds any shuffle of two sorted lists *)
+Theorem putback_rebuilds_the_shuffle : forall T K L,
+  Interleave K T L -> (forall t, In t T -> sep L t) -> putback K T = L.
+Proof. exact putback_interleave. Qed.
+Print Assumptions putback_rebuilds_the_shuffle.
+
+Example failed_insertion_nonvacuous :
+  tree_ordb fail_tree = true /\
+  insert_by_cpuset [] false fail_tree (rq HWLOC_OBJ_GROUP 9 93) = (fail_tree, OFail) /\
+  snd (insert_by_cpuset [] false fail_tree (rq HWLOC_OBJ_GROUP 9 85)) = OInserted.
+Proof. exact failed_insertion_example. Qed.
